@@ -81,13 +81,59 @@ def context_digest(repo):
     return _digest_tree(src)[:20] + _digest_tree(rules)[:20]
 
 
+def cache_path(kind, name, content, repo):
+    import hashlib
+    key = hashlib.sha256((context_digest(repo) + kind + name).encode() + content).hexdigest()[:32]
+    return os.path.join(VERIF, ".cache", "selfval", key + ".json")
+
+
+def pool_extract(repo, out, crate="zinoma", extra=()):
+    """extraction for pool workers: each worker process has its own cargo target directory (the shared one is serialised by a lock)"""
+    from multiprocessing import current_process
+    ident = current_process()._identity
+    w = ident[0] if ident else 0
+    tgt = os.path.join(VERIF, ".cache", f"target-w{w}")
+    base = os.path.join(VERIF, ".cache", "target")
+    if not os.path.exists(tgt) and os.path.exists(base):
+        try:
+            shutil.copytree(base, tgt, symlinks=True)
+        except Exception:
+            pass
+    p = subprocess.run([os.path.join(VERIF, "tools", "extract.sh"), repo, out, crate] + list(extra), env=dict(os.environ, ZF_TARGET_DIR=tgt), stdout=subprocess.PIPE, stderr=subprocess.PIPE, text=True)
+    return p.returncode == 0
+
+
+def _prefetch_one(job):
+    kind, name, content, spec, repo = job
+    try:
+        apply = (lambda dst: apply_edits(dst, spec[1])) if spec[0] == "edits" else apply_patch(spec[1])
+        cached_report(kind, name, content, repo, pool_extract, apply)
+    except Exception:
+        pass
+    return name
+
+
+def prefetch(jobs, repo):
+    """warm the report cache for the given (kind, name, content, spec) jobs in parallel; the callers then read the cache sequentially"""
+    if os.environ.get("VERIF_NO_CACHE") == "1":
+        return
+    todo = [j + (repo,) for j in jobs if not os.path.exists(cache_path(j[0], j[1], j[2], repo))]
+    if len(todo) < 3:
+        return
+    from multiprocessing import Pool
+    n = max(1, min(8, (os.cpu_count() or 2) - 1, len(todo)))
+    try:
+        with Pool(n) as pool:
+            list(pool.imap_unordered(_prefetch_one, todo))
+    except Exception:
+        pass   # the sequential path below computes whatever is still missing
+
+
 def cached_report(kind, name, content, repo, extract, apply):
     """full report {status, reported:{prop:{key:found}}} of analysing a scratch copy of `repo` modified by `apply(dst) -> error or None` with *every* rule.
     Cached under .cache/selfval keyed by (sources of repo, rules, extractor, the modification): the 20 per-property checks share one analysis per variant."""
-    import hashlib
-    key = hashlib.sha256((context_digest(repo) + kind + name).encode() + content).hexdigest()[:32]
-    cdir = os.path.join(VERIF, ".cache", "selfval")
-    cp = os.path.join(cdir, key + ".json")
+    cp = cache_path(kind, name, content, repo)
+    cdir = os.path.dirname(cp)
     if os.environ.get("VERIF_NO_CACHE") != "1" and os.path.exists(cp):
         try:
             return json.load(open(cp))
@@ -165,6 +211,17 @@ def run(prop, repo, extract, verbose=False, controls_only=False):
     import allrules
     from engine import RULES
     res = {"controls": [], "variants": [], "failures": []}
+    # everything this run will look at, computed in parallel first (the loops below then read the cache)
+    jobs = []
+    for v in load_variants():
+        ctl = [rid for rid in v.get("control_for", []) if rid in RULES and prop in RULES[rid].props]
+        rel = prop in v.get("expect", {}) or (v.get("kind") == "benign" and prop in v.get("props", []))
+        if (controls_only and ctl) or (not controls_only and (rel or ctl)):
+            jobs.append(("variant", v["name"], json.dumps(v["edits"], sort_keys=True).encode(), ("edits", v["edits"])))
+    if not controls_only:
+        jobs += [("seeded", nm, open(pp, "rb").read(), ("patch", pp)) for (nm, target, pp) in load_seeded() if target == prop]
+        jobs += [("benign", nm, open(pp, "rb").read(), ("patch", pp)) for (nm, pp) in load_benign()]
+    prefetch(jobs, repo)
     for v in load_variants():
         ctl_rules = [rid for rid in v.get("control_for", []) if rid in RULES and prop in RULES[rid].props]
         relevant = prop in v.get("expect", {}) or (v.get("kind") == "benign" and prop in v.get("props", []))
